@@ -46,6 +46,14 @@ def _chan_sources(t):
     t.repo(CORE + "acquire-core-logger/logger.c")
 
 
+def _chanbig_sources(t):
+    t.verif("harness/chanbig/chanbig.cpp")
+    t.verif("engine/vsim/vsim.cpp")
+    t.repo(RT + "runtime/channel.c", ["-Dmemory_alloc=vh_memory_alloc", "-Dmemory_free=vh_memory_free", "-Dmemset=vh_memset"])
+    t.repo(CORE + "acquire-core-platform/linux/platform.c", PLATFORM_RENAMES)
+    t.repo(CORE + "acquire-core-logger/logger.c")
+
+
 def _hal_sources(t):
     t.verif("harness/hal/hal.cpp")
     t.repo(CORE + "acquire-device-hal/device/hal/camera.c")
@@ -251,14 +259,27 @@ HARNESSES = {
         # integration part of C02 / C03: the same promises seen from the channel's users inside the running
         # runtime (harness rt with VH_FOCUS=C02|C03): a region a consumer holds does not change; a source
         # blocked in channel_write_map is always released by consumption, stop, abort or a device fault
-        "also": {"C02": {"harness": "rt", "quick": {"rc_cases": 500, "rc_size": 40}, "thorough": {"rc_cases": 10000, "rc_size": 60}},
-                 "C03": {"harness": "rt", "quick": {"rc_cases": 500, "rc_size": 40}, "thorough": {"rc_cases": 10000, "rc_size": 60}}},
+        # size part of C01 / C02 / C03: harness chanbig (capacity above 4 GiB)
+        "also": {"C01": [{"harness": "chanbig", "quick": {"rc_cases": 1500, "rc_size": 30}, "thorough": {"rc_cases": 30000, "rc_size": 40}}],
+                 "C02": [{"harness": "rt", "quick": {"rc_cases": 500, "rc_size": 40}, "thorough": {"rc_cases": 10000, "rc_size": 60}},
+                         {"harness": "chanbig", "quick": {"rc_cases": 1500, "rc_size": 30}, "thorough": {"rc_cases": 30000, "rc_size": 40}}],
+                 "C03": [{"harness": "rt", "quick": {"rc_cases": 500, "rc_size": 40}, "thorough": {"rc_cases": 10000, "rc_size": 60}},
+                         {"harness": "chanbig", "quick": {"rc_cases": 1500, "rc_size": 30}, "thorough": {"rc_cases": 30000, "rc_size": 40}}]},
         "rules": {"C02": "a write placed when free space was < 2*n with a reader lagging or holding a mapping, or a write ending exactly at the slowest cursor / at the buffer end; "
                          "integration part (harness rt): a consumer held a region while the source kept writing",
                   "C03": "the writer was observed asleep inside write_map and was released (by an unmap, a refusal, a refused map-while-mapped); "
                          "integration part (harness rt): the source thread was seen asleep in channel_write_map and the acquisition was ended by stop, abort or a device fault"},
         "quick": {"rc_cases": 100000, "rc_size": 60},
         "thorough": {"rc_cases": 2000000, "rc_size": 120},
+    },
+    # size part of the channel properties: capacities above 4 GiB (sparse buffer, extent model).  Not the
+    # primary harness of any property: run through "also" of C01 / C02 / C03.
+    "chanbig": {
+        "props": [],
+        "sources": _chanbig_sources,
+        "engines": ["rc", "rp"],
+        "quick": {"rc_cases": 1500, "rc_size": 30},
+        "thorough": {"rc_cases": 30000, "rc_size": 40},
     },
     "props": {
         "props": ["C13"],
@@ -274,7 +295,7 @@ HARNESSES = {
             "an injected allocation failure (one-shot, n-th request) leaves the values of the object it hit unspecified: only structural validity, absence of leaks and releasability are judged for it until it is destroyed or fully overwritten by a copy"]},
         # integration part of C13: the copies the shipped storage devices keep of their properties (harness stor
         # with VH_FOCUS=C13: after every accepted set the device's copy is read back and compared field by field)
-        "also": {"C13": {"harness": "stor", "quick": {"rc_cases": 3000, "rc_size": 30}, "thorough": {"rc_cases": 40000, "rc_size": 50}}},
+        "also": {"C13": [{"harness": "stor", "quick": {"rc_cases": 3000, "rc_size": 30}, "thorough": {"rc_cases": 40000, "rc_size": 50}}]},
         "quick": {"rc_cases": 40000, "rc_size": 40},
         "thorough": {"rc_cases": 600000, "rc_size": 60, "fz_secs": 120},
     },
